@@ -17,6 +17,21 @@ Mutation sanity check (scratch copies, quick tier, seed 0; all reported VIOLATIO
   M3 `BaseIndexMixin._negate` short-cut returns `indexed()` (drops value-less documents)
   M4 `Ge.negate` returns `Le`                                            M5 `Query.intersect` returns left when
      right is empty
+
+Generator modes added against size-, arity- and constant-dependent changes (quick tier, seed 0, 6000 cases; shares
+measured by `features`): `large` 10% (40-400 documents, cubically skewed value frequencies: 415 executed trees
+meet an operand > 32x smaller than the running result - 114 of them not a subset of it -, 229 the opposite
+orientation; 25% of the skewed trees start with a stored keyword posting followed by tiny operands), `wide`
+10% (And/Or of 9-40 operands after flattening - flat, nested same-type groups, & / | chains, Not over the dual
+node: 2100 trees with 17-32 operands, 800 with > 32), `twocat` 6% (same-named indexes of two catalogs mixed in
+one query), `exotic` 5% (`xapply`: RangeValue / float / tuple-container / late-bound Name / legacy tuple-list
+constants, execute and _apply against the independent evaluation qtree.xsem; the model side only acknowledges
+these commands).  `applystable` executes twice and re-asks every operand before and after.
+Seeded changes C04_A-F all give VIOLATION with a failing input (E: probe path of intersect, F: pairwise merge
+of > 16 Or operands).  Own mutations of the same classes (scratch copies, quick, seed 0; all VIOLATION):
+  N1 `Query.union` updates a > 32x bigger left operand in place (corrupts a stored keyword posting for the
+     queries that follow)                     N2 `And._apply` with > 16 operands intersects smallest-first and
+     stops at one document                    N5 `FieldIndex.applyGt(v)` = applyInRange(v + 1) (wrong for 2.5)
 """
 from lib import qtree
 from lib.core import exc_name, idset
@@ -30,7 +45,12 @@ THEOREMS = ["Hyp.Query." + t for t in (
     "c04_apply_congruence", "c04_apply_leaves_only", "c04_and_end_to_end")]
 CASES = {"quick": 6000, "thorough": 150000}
 BUDGET_S = {"quick": 40, "thorough": 700}
-RULE = ("catalogs of 1-4 real indexes (field, keyword, facet, text) with 0-25 documents; half of the catalogs are "
+RULE = ("modes: small 69% (below), large 10% (40-400 documents, skewed value frequencies, operands differing in "
+        "size by > 32x in either order, stored posting first), wide 10% (And/Or with 9-40 operands around 16/32, "
+        "flat / nested / operator chains / under Not), twocat 6% (same-named indexes of two catalogs), exotic 5% "
+        "(xapply: RangeValue, float, tuple container, Name, legacy tuple/list constants against an independent "
+        "Python evaluation - no Lean answer for these); small: "
+        "catalogs of 1-4 real indexes (field, keyword, facet, text) with 0-25 documents; half of the catalogs are "
         "Total (every document has a non-empty value in every index) and exercise the complement clause, the "
         "other half leave values out (then only And/Or clauses are checked against the specification); random "
         "trees of depth <= 4, arity 1-4, repeated operands, 7% comparators the index does not implement; "
@@ -53,12 +73,103 @@ LEVEL_NOTE = ("leaves are answered at specification level; for all four index ki
 TECHNIQUE = "Lean 4 structural induction over the query AST + differential correspondence on real catalogs"
 
 
+MODES = (("large", 0.10), ("wide", 0.10), ("twocat", 0.06), ("exotic", 0.05))
+
+
+def pick_mode(rng):
+    r = rng.random()
+    for m, p in MODES:
+        if r < p:
+            return m
+        r -= p
+    return "small"
+
+
+def gen_sized(rng, mode):
+    """large: 50-400 documents over 1-3 field / keyword indexes with skewed value frequencies (operands of one
+    query differ in size by more than x 32; small operand first / last / in the middle); wide: And / Or with
+    9-40 operands over 40 field values / 12 keywords.  Both: repeated queries, queries between updates."""
+    total = rng.random() < 0.5
+    kinds = [rng.choice(["field", "field", "keyword", "keyword", "facet"]) for _ in range(rng.choice([1, 2, 2, 3]))]
+    if mode == "large":
+        ndocs = rng.choice([40, 64, 80, 120, 200, 200, 300, 400])
+        dist = qtree.Dist(rng, rng.choice([12, 40]), rng.choice([6, 12]), True)
+    else:
+        ndocs = rng.choice([8, 12, 25, 40, 60])
+        dist = qtree.Dist(rng, 40, 12, rng.random() < 0.3)
+    kinds, cfg, docs, _ = qtree.gen_catalog_x(rng, total, kinds=kinds, ndocs=ndocs, dist=dist, idrange=2 * ndocs)
+    cmds = list(docs)
+    asked = []
+    for _ in range(rng.randrange(3, 8)):
+        r = rng.random()
+        if mode == "large":
+            t = qtree.gen_skew(rng, kinds, total, dist=dist) if r < 0.7 else \
+                qtree.gen_wide(rng, kinds, total, dist=dist) if r < 0.8 else \
+                qtree.gen_tree(rng, kinds, rng.randrange(1, 4), dist=dist)
+        else:
+            t = qtree.gen_wide(rng, kinds, total, dist=dist) if r < 0.85 else \
+                qtree.gen_tree(rng, kinds, rng.randrange(1, 4), dist=dist)
+        toks = qtree.flat_tokens(t)
+        op = rng.choice(["apply", "apply", "applyq", "applyraw", "applyops", "applyops", "applye2e"])
+        if t[0] in ("and", "or") and len(t[1]) >= 3 and rng.random() < 0.2:
+            op = "applyshared"
+        elif rng.random() < 0.3:
+            op = "applystable"      # twice, and no operand's own answer may change by executing the query
+        cmds.append([op] + toks)
+        asked.append(cmds[-1])
+        if rng.random() < 0.15:
+            cmds.append([rng.choice(["shape", "negshape"])] + toks)
+        if rng.random() < 0.25:
+            # the same question again, later: an answer must not depend on the queries executed before
+            cmds.append(list(rng.choice(asked)))
+        if rng.random() < 0.2:
+            for _ in range(rng.randrange(1, 4)):
+                _, i, d = rng.choice(docs)[:3]
+                if not total and rng.random() < 0.3:
+                    cmds.append(["doc", i, d, "none"])
+                else:
+                    cmds.append(["doc", i, d] + qtree.doc_values(rng, kinds[i], True, False, dist))
+    return {"session": "query", "cfg": cfg, "kinds": kinds, "cmds": cmds, "mode": mode}
+
+
+def gen_exotic(rng):
+    """`xapply`: And/Or/Not over leaves whose constants the Lean model cannot express (RangeValue, floats, tuple
+    containers, late-bound Names, the legacy tuple/list forms of D13): execute(optimize=False) and _apply against
+    the independent evaluation qtree.xsem.  No effective NotAll (D2)."""
+    total = rng.random() < 0.5
+    twocat = rng.random() < 0.3
+    kinds = qtree.pair_kinds(rng) if twocat else \
+        [rng.choice(["field", "field", "keyword"]) for _ in range(rng.choice([1, 2, 2, 3]))]
+    kinds = [k if k in ("field", "keyword") else "field" for k in kinds]
+    kinds, cfg, docs, _ = qtree.gen_catalog_x(rng, total, kinds=kinds, twocat=twocat,
+                                              ndocs=rng.choice([1, 3, 5, 8, 12, 25, 60]), idrange=80)
+    cmds = list(docs)
+    for _ in range(rng.randrange(3, 8)):
+        for _ in range(20):
+            t = qtree.gen_xtree(rng, kinds, rng.choice([1, 2, 2, 3]), rng.random() < 0.1)
+            if "D2" not in qtree.xhazards(t, kinds, {}):
+                break
+        else:
+            t = qtree.gen_xleaf(rng, kinds, c="eq")
+        cmds.append(["xapply"] + qtree.flat_tokens(t))
+    return {"session": "query", "cfg": cfg, "kinds": kinds, "cmds": cmds, "mode": "exotic"}
+
+
 def gen(rng, tier, idx):
+    mode = pick_mode(rng)
+    if mode in ("large", "wide"):
+        return gen_sized(rng, mode)
+    if mode == "exotic":
+        return gen_exotic(rng)
     total = rng.random() < 0.5
     # e2e catalogs: facet and text indexes are model-backed in the driver (hierarchical facets over a dictionary
     # of names, text leaves = query STRINGS), so that `applye2e` composes all four index models
     e2e = rng.random() < 0.7
-    kinds, cfg, docs = qtree.gen_catalog(rng, total, e2e=e2e)
+    if mode == "twocat":
+        # indexes 2j / 2j+1: same kind, same name, two catalogs; queries mix them
+        kinds, cfg, docs, _ = qtree.gen_catalog_x(rng, total, kinds=qtree.pair_kinds(rng), e2e=e2e, twocat=True)
+    else:
+        kinds, cfg, docs = qtree.gen_catalog(rng, total, e2e=e2e)
     if rng.random() < 0.04:
         cfg[0] = ["cfg", "family", 32]
     cmds = list(docs)
@@ -73,7 +184,10 @@ def gen(rng, tier, idx):
             else:
                 cmds.append(["doc", i, d] + (qtree.doc_values(rng, k, True, e2e) or [0]))
     for _ in range(rng.randrange(3, 9)):
-        t = qtree.gen_tree(rng, kinds, rng.randrange(1, 5), e2e=e2e)
+        if mode == "twocat" and rng.random() < 0.4:
+            t = qtree.gen_eqfold(rng, kinds, e2e=e2e, allow_not=total)
+        else:
+            t = qtree.gen_tree(rng, kinds, rng.randrange(1, 5), e2e=e2e)
         toks = qtree.flat_tokens(t)
         op = rng.choice(["apply", "apply", "applyq", "applyraw", "applyops", "applye2e", "applye2e"] if e2e else
                         ["apply", "apply", "applyq", "applyraw", "applyops", "applye2e"])
@@ -105,7 +219,7 @@ def gen(rng, tier, idx):
                     for j, kj in enumerate(kinds):
                         if j != i and not any(c[0] == "doc" and c[1] == j and c[2] == d for c in cmds):
                             cmds.append(["doc", j, d] + qtree.doc_values(rng, kj, True, e2e)[:1])
-    return {"session": "query", "cfg": cfg, "kinds": kinds, "cmds": cmds}
+    return {"session": "query", "cfg": cfg, "kinds": kinds, "cmds": cmds, "mode": mode}
 
 
 def case_lines_cmd(c):
@@ -129,8 +243,37 @@ def build_ops(im, t):
     return im.build(t)
 
 
+_PROBE = {}     # command index -> size observations of the case being evaluated (read by features)
+
+
+def probe(im, t):
+    """sizes along the evaluation of the top And/Or (after Not expansion): the largest ratio between the running
+    result and the next operand, in both orientations, and whether that small side is a subset of the big one"""
+    from hypatia import query as Q
+    try:
+        q = im.build(t)
+        if isinstance(q, Q.Not):
+            q = q.query.negate()
+        if not isinstance(q, Q.BoolOp):
+            return []
+        sets = [set(k._apply(None)) for k in q.queries]
+    except Exception:
+        return []
+    f = set()
+    run = sets[0]
+    for s in sets[1:]:
+        if len(s) and len(run):
+            if len(s) * 32 < len(run):
+                f.add("operand-32x-smaller-than-running-result" + ("" if s - run else "(subset)"))
+            if len(run) * 32 < len(s):
+                f.add("running-result-32x-smaller-than-operand" + ("" if run - s else "(subset)"))
+        run = (run & s) if isinstance(q, Q.And) else (run | s)
+    return sorted(f)
+
+
 def impl_run(hyp, case):
     from hypatia.catalog import CatalogQuery
+    _PROBE.clear()
     im = qtree.Impl(hyp, case["cfg"], case.get("kinds"))
     out = []
     for c in case["cmds"]:
@@ -141,6 +284,16 @@ def impl_run(hyp, case):
                 out.append("ok")
                 continue
             t = qtree.parse_tokens(list(c[1:]))
+            if op == "xapply":
+                names = {}
+                q = im.xbuild(t, names)
+                r1 = qtree.run_ids(lambda: q.execute(optimize=False, names=dict(names)))
+                r2 = qtree.run_ids(lambda: q._apply(dict(names)))
+                rs = idset(qtree.xsem(t, im.kinds, im.table))
+                out.append("ok" if r1 == r2 == rs else "execute=%s _apply=%s independent=%s" % (r1, r2, rs))
+                continue
+            if case.get("mode") == "large" and op.startswith("apply"):
+                _PROBE[len(out)] = probe(im, t)
             if op in ("apply", "applye2e"):
                 # applye2e: the model side evaluates the tree over the C01/C02 index *models* fed with the
                 # same doc lines (applyQM), specification side = applyQ over the tables (c04_end_to_end)
@@ -181,6 +334,17 @@ def impl_run(hyp, case):
                 else:
                     q = im.build(t)
                 out.append(qtree.run_ids(lambda: q.execute(optimize=False)))
+            elif op == "applystable":
+                from hypatia import query as Q
+                q = im.build(t)
+                top = q.query.negate() if isinstance(q, Q.Not) else q
+                kids = list(top.queries) if isinstance(top, Q.BoolOp) else []
+                before = [qtree.run_ids(lambda k=k: k._apply(None)) for k in kids]
+                r1 = qtree.run_ids(lambda: q.execute(optimize=False))
+                after = [qtree.run_ids(lambda k=k: k._apply(None)) for k in kids]
+                r2 = qtree.run_ids(lambda: q.execute(optimize=False))
+                out.append("operand-answer-changed-by-executing-the-query" if before != after else
+                           r1 if r1 == r2 else "first=%s second=%s" % (r1, r2))
             elif op == "shape":
                 out.append(" ".join(map(str, im.tokens(im.build(t)))))
             elif op == "negshape":
@@ -193,7 +357,9 @@ def impl_run(hyp, case):
 
 
 def model_cmd(c):
-    if c[0] in ("applyq", "applyraw", "applyops", "applyshared"):
+    if c[0] == "xapply":
+        return ["cfg", "xapply"]        # no model answer (the driver acknowledges with `ok`): see gen_exotic
+    if c[0] in ("applyq", "applyraw", "applyops", "applyshared", "applystable"):
         return ["apply"] + list(c[1:])
     return c
 
@@ -209,6 +375,9 @@ def has_bool(c):
 
 
 def nontrivial(case, outs):
+    if case.get("mode") == "exotic":
+        return any(c[0] == "xapply" and o == "ok" and has_bool(c) for c, o in zip(case["cmds"], outs)) and \
+            any(len(d) > 3 and d[3] != "none" for d in case["cmds"] if d[0] == "doc")
     ans = {o for c, o in zip(case["cmds"], outs) if c[0].startswith("apply")}
     return any(has_bool(c) for c in case["cmds"] if c[0].startswith("apply")) and len(ans) >= 2 and \
         any(o.startswith("{") and o != "{}" for o in ans)
@@ -218,10 +387,16 @@ def features(case, outs):
     f = []
     fam = [c[2] for c in case["cfg"] if c[1] == "family"][0]
     f.append("family:%s" % fam)
+    f.append("mode:" + case.get("mode", "small"))
+    nd = len({c[2] for c in case["cmds"] if c[0] == "doc"})
+    f.append("docs:" + ("0-25" if nd <= 25 else "26-64" if nd <= 64 else "65-200" if nd <= 200 else "201-400"))
+    f += size_features(case, outs)
     for c, o in zip(case["cmds"], outs):
         if c[0] == "doc":
             continue
         f.append("cmd:" + c[0])
+        if c[0] == "xapply":
+            continue
         f.append("answer:" + ("empty" if o == "{}" else "nonempty" if o.startswith("{") else o if o.startswith("err") else "shape"))
         for t in ("and", "or", "not"):
             if t in c[1:]:
@@ -232,6 +407,40 @@ def features(case, outs):
             e2e = any(x[1] == "e2e" for x in case["cfg"])
             for k in sorted(set(leaf_kinds(qtree.parse_tokens(list(c[1:])), case["kinds"]))):
                 f.append("e2e-leaf:%s%s" % (k, "-model" if e2e or k in ("field", "keyword") else ""))
+    return f
+
+
+def max_arity(t, flat=True):
+    """largest operand count of an And/Or after same-type flattening (as the constructor does)"""
+    if t[0] in ("cmp", "range"):
+        return 0
+    if t[0] == "not":
+        return max_arity(t[1])
+    def flatten(op, kids):
+        out = []
+        for k in kids:
+            out += flatten(op, k[1]) if k[0] == op else [k]
+        return out
+    kids = flatten(t[0], t[1])
+    return max([len(kids)] + [max_arity(k) for k in kids])
+
+
+def arity_class(n):
+    return "<=4" if n <= 4 else "5-16" if n <= 16 else "17-32" if n <= 32 else ">32"
+
+
+def size_features(case, outs):
+    """arity classes of the executed trees (after flattening); on large catalogs the size observations of
+    `probe` (how far apart the running result and the next operand are)"""
+    f = []
+    for j, (c, o) in enumerate(zip(case["cmds"], outs)):
+        if c[0] == "xapply":
+            t = qtree.parse_tokens(list(c[1:]))
+            f.append("xapply:" + ("agree" if o == "ok" else "differ"))
+            f += ["xapply-const:" + x for x in qtree.xfeatures(t)]
+        elif c[0].startswith("apply"):
+            f.append("arity:" + arity_class(max_arity(qtree.parse_tokens(list(c[1:])))))
+            f += ["large:" + x for x in _PROBE.get(j, [])]
     return f
 
 
@@ -283,6 +492,7 @@ def neighbourhood(rng, case):
     """a tree shape diverged from the model: look for a catalog on which the *result* is wrong"""
     kinds = case["kinds"]
     trees = [list(c[1:]) for c in case["cmds"] if c[0] != "doc"]
-    _, cfg, docs = qtree.gen_catalog(rng, rng.random() < 0.5, kinds=kinds)
+    twocat = any(c[1] == "twocat" for c in case["cfg"])       # same-named indexes stay same-named
+    _, cfg, docs, _ = qtree.gen_catalog_x(rng, rng.random() < 0.5, kinds=kinds, twocat=twocat)
     return {"session": "query", "cfg": cfg, "kinds": kinds,
             "cmds": docs + [["apply"] + t for t in trees]}
